@@ -86,7 +86,7 @@ def run_unquoter_steps(out, sc, tier):
     def cfg(items, tokens, invs, overrides=()):
         return "\n".join(["SPECIFICATION Spec", f"CONSTANT MaxItems = {items}", f"CONSTANT Tokens <- {tokens}"]
                          + [f"CONSTANT {o}" for o in overrides] + [f"INVARIANT {i}" for i in invs] + ["CHECK_DEADLOCK FALSE"]) + "\n"
-    items, toks = (3, "SmallTokens") if tier == "quick" else (4, "UnqTokens")
+    items, toks = (3, "SmallTokens") if tier == "quick" else (4, "SmallTokens")
     res = model_check("UnquoterSteps", cfg(items, toks, UNQ_STEP_INVS), sc.work, timeout=7200)
     out.add_model(f"UnquoterSteps[{toks}, items<={items}]", res,
                   what="step machines of _quoting_py._Unquoter and _quoting_c._Unquoter, 4 configurations: " + ", ".join(UNQ_STEP_INVS))
